@@ -13,6 +13,11 @@
  *    VP_START to its end; the bytes behind the cut are made arbitrary): the
  *    reader returns exactly the records that lie wholly before the cut, then
  *    EOF, and never calls the reporter.
+ *  VP_MODE 2 (e): one byte of the part that lies in the first block is
+ *    altered (position VP_POS, symbolic non-zero xor mask); the last record
+ *    lies wholly in the second block.  The reader returns exactly the
+ *    records before the damaged fragment and the records of the second
+ *    block (never anything that was not written), and reports a drop.
  *  VP_MODE 3: (VP_START == 0) check of readerpos.h: after the real reader has
  *    returned record 1, its state equals vp_reader_at(pos = end of record 1).
  *
@@ -143,6 +148,76 @@ harness(void) {
   ldb_buffer_init(&scratch);
   ldb_buffer_grow(&scratch, VP_SCRATCH);
 
+#if VP_MODE == 2
+  {
+    /* ---- one altered byte in the first block */
+    const size_t b1 = VP_REF_BLK - VP_START; /* bytes of the tail that lie in the first block */
+    size_t pos = VP_POS; /* concrete per query: a symbolic index would make every length symbolic */
+    uint8_t delta = vp_u8();
+    size_t start, hs = 0;
+    int a = -1, q;
+
+    VP_ASSERT(b1 < len && ends[VP_NRECS - 1] - (size_t)VP_LEN(VP_NRECS - 1) - 7 >= b1,
+              "vp-model: layout has the last record wholly in the second block");
+    VP_ASSUME(pos < b1 && delta != 0);
+
+    /* the record whose first-block fragment contains the altered byte; in
+     * the layouts used every byte of the first block belongs to a fragment
+     * that starts a record (no trailer, no empty payload) */
+    start = 0;
+    for (r = 0; r < VP_NRECS; r++) {
+      if (pos >= start && pos < ends[r] && a < 0) {
+        a = r;
+        hs = start;
+      }
+      start = ends[r];
+    }
+    VP_ASSERT(a >= 0, "vp-model: altered byte belongs to a record");
+
+    vp_img[pos] ^= delta;
+
+    /* A changed LENGTH field makes the checksum cover a different extent of
+     * symbolic payload; that the two checksums then differ is the usual
+     * no-collision assumption on the checksum (2^-32 for CRC-32C), made
+     * explicit here.  Every other single-byte change is detected by the
+     * checksum itself (also by the abstract one), with no assumption. */
+    if (pos == hs + 4 || pos == hs + 5) {
+      size_t alen = (size_t)vp_img[hs + 4] | ((size_t)vp_img[hs + 5] << 8);
+      if (hs + 7 + alen <= b1) {
+        uint32_t stored = (uint32_t)vp_img[hs] | ((uint32_t)vp_img[hs + 1] << 8) |
+                          ((uint32_t)vp_img[hs + 2] << 16) | ((uint32_t)vp_img[hs + 3] << 24);
+        VP_ASSUME(stored != vp_ref_frag_cksum(vp_img[hs + 6], vp_img + hs + 7, alen));
+      }
+    }
+
+    q = 0;
+    start = 0;
+    for (r = 0; r < VP_NRECS; r++) {
+      /* survivors: records wholly before the damaged fragment, and records
+       * that start in the next (intact) block */
+      int keep = (r < a) || (start >= b1);
+      start = ends[r];
+      if (!keep)
+        continue;
+      ok = ldb_reader_read_record(&lr, &rec, &scratch);
+      VP_ASSERT(ok, "records before the damage and records of the next intact block are returned");
+      VP_ASSERT(rec.size == (size_t)VP_LEN(r), "surviving record has its written length");
+      vp_check_bytes(rec.data, vp_recs[r], rec.size < (size_t)VP_LEN(r) ? rec.size : (size_t)VP_LEN(r), 1);
+      q++;
+    }
+    ok = ldb_reader_read_record(&lr, &rec, &scratch);
+    VP_ASSERT(!ok, "nothing else is returned: no record that was not written");
+    VP_ASSERT(vp_nreports >= 1 && vp_report_bytes > 0, "the drop is reported");
+
+    VP_WITNESS("altered");
+
+    ldb_buffer_clear(&scratch);
+    ldb_buffer_clear(&out);
+    ldb_reader_clear(&lr);
+    return;
+  }
+#endif
+
   for (r = 0; r < VP_NRECS; r++) {
     ok = ldb_reader_read_record(&lr, &rec, &scratch);
     if (ends[r] <= cut) {
@@ -184,7 +259,7 @@ harness(void) {
     VP_WITNESS("cut inside the records");
   if (!eof_seen)
     VP_WITNESS("cut at the end");
-#else
+#elif VP_MODE != 2
   VP_WITNESS("round trip");
 #endif
 
